@@ -512,6 +512,11 @@ class SymReal:
         c.safety.append((len(c.pc), h.t > 0, 'arctan2 of a non-zero vector'))
         return new_atom('atan', rad_per_unit=1.0, cs=(dx.t / h.t, dy.t / h.t))
 
+    def deg2rad(s): return SymReal(s.t * PI / 180)
+    radians = deg2rad
+    def rad2deg(s): return SymReal(s.t * 180 / PI)
+    degrees = rad2deg
+
     def conjugate(s): return s
     def isfinite(s): return True
     def isnan(s): return False
@@ -689,7 +694,10 @@ def sint(x):
     if isinstance(x, SymReal):
         if x.integral:
             return x
-        raise Inconclusive(f'int() of non-integral symbolic {x!r:.60}')
+        # int() truncates towards zero
+        if decide(x.t >= 0):
+            return x.floor()
+        return x.ceil()
     if isinstance(x, np.ndarray) and x.dtype == object and x.shape == ():
         return sint(x[()])
     return builtins.int(x)
@@ -886,7 +894,20 @@ def cs_of(t):
         n = k / rpu
         nr = round(n)
         if abs(n - nr) > 1e-9:
-            raise Inconclusive(f'non-integral multiple {n} of angle atom {var}')
+            # cos/sin of a non-integral multiple of a symbolic angle: some point of the unit
+            # circle, unrelated (as far as the encoding knows) to the angle itself -- a sound
+            # over-approximation (more models); counter-models are replayed concretely
+            memo = c.__dict__.setdefault('frac_atoms', {})
+            key = (vid, round(n, 9))
+            if key not in memo:
+                nm = c.name('fracang')
+                fc, fs = z3.Real('c_' + nm), z3.Real('s_' + nm)
+                c.pc.append(fc * fc + fs * fs == 1)
+                c.notes.append(f'cos/sin of the non-integral multiple {n:.6g} of angle {var} over-approximated by a free unit vector')
+                memo[key] = (fc, fs)
+            fc, fs = memo[key]
+            cc, ss = rot(cc, ss, fc, fs)
+            continue
         if nr < 0:
             sa, nr = -sa, -nr
         for _ in range(nr):
